@@ -102,7 +102,7 @@ def atoms(W, rng, d, t):
     for lf in W.leaves:
         if (lf.dom, lf.tgt) == (d, t):
             out += [dict(op="leaf", id=lf.id, d=d, t=t)] * 2
-        if (lf.dom, lf.tgt) == (t, d) and d != t:
+        if (lf.dom, lf.tgt) == (t, d) and (d != t or rng.random() < 0.35):
             out.append(dict(op="adjoint", a=dict(op="leaf", id=lf.id, d=t, t=d), d=d, t=t))
             out.append(dict(op="inverse", a=dict(op="leaf", id=lf.id, d=t, t=d), d=d, t=t))
     if d == t:
@@ -171,6 +171,94 @@ def gen(W, rng, d, t, depth):
     if k == "invEnabler":
         return dict(op=k, a=gen_spd(W, rng, d), d=d, t=t)
     raise AssertionError(k)
+
+
+def gen_targeted(W, rng):
+    """small scripts aimed at one rewriting rule each (DESIGN §5 C01 'Search'): scaling absorbed into a (negated) diagonal of a
+    sum, real/complex scalings collected in a chain, diagonals with pending transformations merged in chains and sums, different
+    sampling dtypes, block-diagonals with missing keys, sandwiches with scaling buns, flipped chains"""
+    d = rng.choice([0, 1, 4, 2])
+    dt = pick_dt(rng)
+
+    def diag(trafo=None, same_dt=True):
+        e = atom_diag(W, rng, d)
+        e["dt"] = dt if same_dt else pick_dt(rng)
+        t = rng.choice(["", "", "adjoint", "inverse", "adjinv"]) if trafo is None else trafo
+        if any(X.g(v) == X.ZERO for v in e["v"]):
+            t = ""
+        if t in ("adjoint", "inverse"):
+            e = dict(op=t, a=e, d=d, t=d)
+        elif t == "adjinv":
+            e = dict(op="adjoint", a=dict(op="inverse", a=e, d=d, t=d), d=d, t=d)
+        return e
+
+    def scal(cplx=None):
+        e = atom_scaling(W, rng, d)
+        e["dt"] = dt if rng.random() < 0.7 else pick_dt(rng)
+        if cplx is True:
+            e["c"] = gj(rng.choice([(0, 1), (1, 1), (0, 2), ("1/2", "-1/2"), (1, -1)]))
+        if cplx is False:
+            e["c"] = gj(rng.choice([(2, 0), (-1, 0), ("1/2", 0), (3, 0), (-2, 0), (4, 0)]))
+        return e
+
+    def other():
+        ls = [lf for lf in W.leaves if lf.dom == d and lf.tgt == d]
+        if ls and rng.random() < 0.8:
+            return dict(op="leaf", id=rng.choice(ls).id, d=d, t=d)
+        return diag(same_dt=False)
+
+    def bin_(op, a, b):
+        return dict(op=op, a=a, b=b, d=d, t=d)
+    kind = rng.choice(["sum-absorb", "sum-absorb", "sum-diags", "chain-scal", "chain-scal", "chain-diags", "flip-chain",
+                       "sandwich-scal", "block", "block", "neg-single"])
+    if kind == "sum-absorb":
+        # X ± D ± c (in random order and nesting): the summed scaling goes into the first diagonal with its sign
+        terms = [other(), diag(), scal()] + ([scal()] if rng.random() < 0.4 else []) + ([diag()] if rng.random() < 0.3 else [])
+        rng.shuffle(terms)
+        e = terms[0] if rng.random() < 0.6 else dict(op="neg", a=terms[0], d=d, t=d)
+        for t in terms[1:]:
+            e = bin_(rng.choice(["add", "sub"]), e, t) if rng.random() < 0.7 else bin_(rng.choice(["add", "sub"]), t, e)
+        return e
+    if kind == "sum-diags":
+        terms = [diag(same_dt=rng.random() < 0.7) for _ in range(rng.choice([2, 3]))] + ([other()] if rng.random() < 0.5 else [])
+        rng.shuffle(terms)
+        e = terms[0]
+        for t in terms[1:]:
+            e = bin_(rng.choice(["add", "sub"]), e, t)
+        return e
+    if kind == "chain-scal":
+        fac = [scal(cplx=rng.random() < 0.5), other()] + ([diag()] if rng.random() < 0.6 else []) + ([scal()] if rng.random() < 0.5 else [])
+        rng.shuffle(fac)
+        e = fac[0]
+        for f in fac[1:]:
+            e = bin_("matmul", e, f)
+        if rng.random() < 0.4:
+            e = dict(op=rng.choice(["adjoint", "inverse"]), a=e, d=d, t=d)
+        return e
+    if kind == "chain-diags":
+        fac = [diag(same_dt=rng.random() < 0.6) for _ in range(rng.choice([2, 3]))] + ([other()] if rng.random() < 0.5 else [])
+        if rng.random() < 0.5:
+            rng.shuffle(fac)
+        e = fac[0]
+        for f in fac[1:]:
+            e = bin_("matmul", e, f)
+        return e
+    if kind == "flip-chain":
+        e = bin_("matmul", bin_("matmul", other(), scal(cplx=True)), other())
+        e = dict(op=rng.choice(["adjoint", "inverse"]), a=e, d=d, t=d)
+        if rng.random() < 0.5:
+            e = dict(op=rng.choice(["adjoint", "inverse"]), a=e, d=d, t=d)
+        return e
+    if kind == "sandwich-scal":
+        return dict(op="sandwich", bun=scal(cplx=rng.random() < 0.6), cheese=rng.choice([None, diag(), other()]), dt=dt, d=d, t=d)
+    if kind == "neg-single":
+        return bin_("sub", scal(False), diag()) if rng.random() < 0.5 else dict(op="neg", a=bin_("add", diag(), diag()), d=d, t=d)
+    # block-diagonals with missing keys meeting in chains and sums
+    a, b = gen_block(W, rng, 5, 0), gen_block(W, rng, 5, 0)
+    e = dict(op=rng.choice(["matmul", "add", "sub"]), a=a, b=b, d=5, t=5)
+    if rng.random() < 0.4:
+        e = dict(op=rng.choice(["matmul", "add", "sub"]), a=e, b=gen_block(W, rng, 5, 0), d=5, t=5)
+    return e
 
 
 def gen_case(W, rng, depth, malformed=False):
@@ -454,7 +542,10 @@ def run(ctx):
     n = ctx.n(260, 4000)
     for i in range(n):
         depth = ctx.rng.choice([1, 2, 2, 3] if ctx.quick else [1, 2, 3, 3, 4, 5])
-        cases.append(gen_case(W, ctx.rng, depth, malformed=(i % 12 == 11)))
+        if i % 5 in (1, 3):
+            cases.append(dict(script=gen_targeted(W, ctx.rng), valid=True, targeted=True))
+        else:
+            cases.append(gen_case(W, ctx.rng, depth, malformed=(i % 12 == 11)))
     cases = [c for c in cases if OW.size_of(c["script"]) <= 40]
     reals = [run_real(W, c)[0] for c in cases]
     models = run_model(ctx, W, cases)
